@@ -20,6 +20,16 @@ CHECKS = {
    technique="TLA+ number recogniser + normal-form order (Number.tla) with TLC-checked lemma Norm order = exact order; recogniser graph walked against NewNumber; recorded Cmp/Equal/String observations validated by TLC (NumberTrace)",
    text="Number.tla gives the JSON number grammar as a recogniser and the denotation as a digit-sequence normal form; TLC checks NormOrderCorrect/Antisymmetric/ZeroHasNoSign on all pairs of accepted texts up to length 4 with exact integer arithmetic. All strings up to length 7/9 over the number alphabet are compared with NewNumber's verdict; tens of thousands of num/cmp observations (small exhaustive set pairs, thousand-digit numbers respelled with exponent shifts up to 2500, last-digit neighbours) are validated line by line by TLC.",
    note="Trusted: TLC and SequencesExt overrides. Exponents beyond +-2500 are outside the value oracle. Known finding: '0e5' rejected (pinned by the repository's own test)."),
+ "C18": dict(
+   category="model_checking", design_ref="DESIGN.md §3 C18",
+   technique="TLA+ delimiter automaton (RegexDelim.tla), TLC graph dump, every class string concretised over a regex alphabet and replayed on notations/regex, the OpenAPI converter and referring schemas",
+   text="RegexDelim.tla defines which texts are properly delimited and where the pattern ends (escape parity); TLC checks its invariants and dumps the graph. Every class string up to length 5/6, with class 'other' expanded over {a ( ) [ ] * + . |}, and generated well-formed patterns with trailing text are replayed: verdict = delimOK and regexp.Compile, positioned rejection, Len, Pattern, Example matches, AST value, OpenAPI pattern, referring schema verdict per the pattern.",
+   note="Go's regexp is the definition of pattern validity and matching (DESIGN §2.5). Referring-schema values judged only where anchored and unanchored matching agree."),
+ "C20": dict(
+   category="model_checking", design_ref="DESIGN.md §3 C20",
+   technique="TLA+ vocabulary model (TypeVocab.tla): TLC checks reflexivity/symmetry/exact families and emits every pair and literal with its expectation; all emitted cases replayed on type.go / json.Guess",
+   text="TypeVocab.tla states the documented families; TLC checks Reflexive, Symmetric, UndefinedUnrelated, ExactlyFamilies over all 17x17 pairs and emits each pair with SoftEq, every accepted number literal up to length 5/7 with its kind, and the vocabulary tables. The harness replays all of them: IsEqualSoft, IsValidType (names and near misses), IsScalar, token-type agreement of schema and JSON types, GuessSchemaType 60x per literal against the scanner's classifier.",
+   note="The 'comment' type is outside the domain. Known finding: null~array one-directional (pinned by the repository's table-derived test)."),
 }
 
 REASON_PENDING = "check not built yet in this round (design in DESIGN.md §3); no claim is made"
